@@ -239,6 +239,7 @@ Proof.
   intros st i Hd Hw. unfold Sys.step.
   destruct (nth_error (inflight st) i) as [a|]; [|split; assumption].
   destruct (pend st) as [p|]; [|split; assumption].
+  destruct (negb (Nat.eqb (ack_id a) (started st))); [split; assumption|].
   match goal with |- context [if ?c then _ else _] => destruct c end; split; assumption.
 Qed.
 
